@@ -236,7 +236,65 @@ def _fix_restore_path_emulated():
     tsc.TestSuiteChromosome.get_coverage_for = get_coverage_for
 
 
+def _fix_protect_assertion_carriers():
+    """get_assertion_protected_variables also protects the statements the reference assertions are *attached to* (an assertion
+    on var_0 rendered after `var_1 = f(var_0)` disappears together with that statement) and everything those statements read;
+    the visitors additionally never remove a statement that carries a reference assertion (it may bind nothing)."""
+    import math
+
+    import pynguin.ga.postprocess as pp
+    import pynguin.ga.testcasechromosome as tcc
+
+    from pynguin.assertion.assertion import ReferenceAssertion
+
+    def carries(statement):
+        return any(isinstance(a, ReferenceAssertion) for a in statement.assertions)
+
+    orig_direct = pp._directly_asserted_variables
+
+    def _directly_asserted_variables(test_case):
+        protected = orig_direct(test_case)
+        bound = {st.bound_variable for st in test_case.statements() if st.bound_variable is not None}
+        for st in test_case.statements():
+            if carries(st):
+                if st.bound_variable is not None:
+                    protected.add(st.bound_variable)
+                protected.update(st.used_variables() & bound)
+        return protected
+
+    pp._directly_asserted_variables = _directly_asserted_variables
+
+    def _minimize_statements_across_test_suite(self, chromosome, original_coverage):
+        statements_changed = True
+        while statements_changed:
+            statements_changed = False
+            for test_case_idx, test_case_chrom in enumerate(chromosome.test_case_chromosomes):
+                test_case = test_case_chrom.test_case
+                protected = pp.get_assertion_protected_variables(test_case)
+                i = 0
+                while i < test_case.size():
+                    statement = test_case.get_statement(i)
+                    if statement.bound_variable in protected or carries(statement):
+                        i += 1
+                        continue
+                    test_suite_clone = chromosome.clone()
+                    clone_test_case = test_suite_clone.get_test_case_chromosome(test_case_idx).test_case
+                    clone_test_case.remove_statement_with_forward_dependencies(i)
+                    test_suite_clone.set_test_case_chromosome(test_case_idx, tcc.TestCaseChromosome(clone_test_case))
+                    minimized = [f.compute_coverage(test_suite_clone) for f in self._fitness_functions]
+                    if all(map(math.isclose, original_coverage, minimized)):
+                        removed = test_case.remove_statement_with_forward_dependencies(i)
+                        self._removed_statements += len(removed)
+                        chromosome.set_test_case_chromosome(test_case_idx, tcc.TestCaseChromosome(test_case))
+                        statements_changed = True
+                    else:
+                        i += 1
+
+    pp.CombinedMinimizationVisitor._minimize_statements_across_test_suite = _minimize_statements_across_test_suite
+
+
 BREAKS = {
+    "PROPOSED_FIX_protect-assertion-carriers": _fix_protect_assertion_carriers,
     "PROPOSED_FIX_minimiser-compares-covered-goals": _fix_minimiser_compares_covered_goals,
     "PROPOSED_FIX_post-check-recomputes": _fix_post_check_recomputes,
     "PROPOSED_FIX_restore-path-emulated": _fix_restore_path_emulated,
@@ -299,9 +357,9 @@ def asserted_bindings(stmts):
 
 
 def reference_protected(stmts):
-    """Independent reading of the documented protection rule: bare-source reference assertions + backward dependencies."""
+    """Independent reading of the protection rule: variables a reference assertion refers to (root of the source path) + backward dependencies."""
     bound = {s["bound"] for s in stmts if s["bound"] is not None}
-    prot = {a["source"] for s in stmts for a in s["assertions"] if isinstance(a.get("source"), str) and a["source"] in bound}
+    prot = {a["source"].split(".", 1)[0] for s in stmts for a in s["assertions"] if isinstance(a.get("source"), str)} & bound
     changed = True
     while changed:
         changed = False
@@ -361,13 +419,19 @@ def install(events, spec):
         def __enter__(self):
             S["stack"].append(self.name)
             self.entry_info = {}
-            if self.name.startswith("iterative"):
+            self.consulted_at_entry = calls["get_assertion_protected_variables"]
+            if self.name.startswith("iterative") or self.name == "combined-visitor":
                 for e in self.targets:
                     stmts = test_record(e["tc"])
+                    carriers: dict = {}
+                    for s_ in stmts:
+                        for a_ in s_["assertions"]:
+                            if isinstance(a_.get("source"), str):
+                                carriers.setdefault(a_["source"].split(".", 1)[0], set()).add(s_["code"])
                     self.entry_info[id(e["tc"])] = {"protected": reference_protected(stmts), "asserted_now": asserted_bindings(stmts),
-                                                   "real_protected": None}
+                                                   "real_protected": None, "carriers": carriers}
                     try:
-                        self.entry_info[id(e["tc"])]["real_protected"] = sorted(pp.get_assertion_protected_variables(e["tc"]))
+                        self.entry_info[id(e["tc"])]["real_protected"] = sorted(orig_protected(e["tc"]))
                     except Exception as ex:  # noqa: BLE001
                         self.entry_info[id(e["tc"])]["real_protected"] = f"raised {type(ex).__name__}"
             return self
@@ -386,6 +450,11 @@ def install(events, spec):
                         rec["protected_at_entry"] = v in ei["protected"]
                         rec["asserted_at_entry"] = ei["asserted_now"].get(v, {}).get("tag")
                         rec["real_protected_at_entry"] = (v in ei["real_protected"]) if isinstance(ei["real_protected"], list) else ei["real_protected"]
+                        left = {stmt_record_code(st) for st in e["tc"].statements()} if id(e["tc"]) in members else set()
+                        # statements that carried the assertions on v (other than v's own statement) and are gone as well
+                        rec["carrier_statements_removed"] = sorted(c for c in ei["carriers"].get(v, ()) if c != info["code"] and c not in left)
+                        rec["only_carried_elsewhere"] = info["code"] not in ei["carriers"].get(v, ())
+                    rec["protection_consulted"] = calls["get_assertion_protected_variables"] - self.consulted_at_entry
                     # what became of the statement
                     rec["became"] = next((stmt_record_code(st) for st in e["tc"].statements()
                                           if st.bound_variable is None and info["code"].split("=", 1)[-1].strip() == stmt_record_code(st)), None)
@@ -425,6 +494,14 @@ def install(events, spec):
 
         setattr(owner, attr, wrapper)
 
+    orig_protected = pp.get_assertion_protected_variables
+
+    def get_assertion_protected_variables(test_case):
+        if S["active"] and S["stack"]:
+            calls["get_assertion_protected_variables"] += 1
+        return orig_protected(test_case)
+
+    pp.get_assertion_protected_variables = get_assertion_protected_variables
     wrap_case_level(tcm.TestCase, "remove_unused_variables", "remove_unused_variables", lambda self: self)
     wrap_case_level(pp.UnusedStatementsTestCaseVisitor, "visit_default_test_case", "unused-statements-visitor", lambda self, t: t)
     wrap_case_level(pp.ForwardIterativeMinimizationVisitor, "visit_default_test_case", "iterative-forward", lambda self, t: t)
